@@ -148,9 +148,14 @@ check("C11",
       "Lean 4 proof over the orchestrator trace (no step left in flight, records carry the oracle's exit, report iff failed or end); real canvas runs foreground/background/resumed/concurrent checked against the property",
       "Proof (on Orch.run, for every schedule ending in a decisive step, every oracle): every started step has completed when the invocation ends "
       "(no_inflight_left), every completed record carries the step's real exit status, hook calls are the completed records plus end, a report is generated iff the "
-      "invocation failed or reached end. The implementation side is sampled: real canvas runs in foreground and background, resumed after a failure, and with a "
+      "invocation failed or reached end. The lock file (Lock model of lock_acquire/lock_alive/lock_release/trap_exit/robsd-kill, C11Lock): an invocation arriving while "
+      ".running names another one exits non-zero and leaves lock, reports and mails exactly as they were (second_refused); an invocation holds the lock under its own "
+      "name from lock_acquire to the exit trap and it is gone afterwards (lock_names_then_gone); for every sequence of invocations each report is written into the "
+      "directory of the invocation it describes (report_own_directory); lock_alive fails once robsd-kill made the lock immutable (kill_seen); acquire_not_atomic records "
+      "that lock_acquire is a read followed by a write (outside the property's 'started meanwhile'). The implementation side is sampled: real canvas runs in foreground and background, resumed after a failure, and with a "
       "second fresh/resumed invocation started while the first holds the lock; records, skip records, logs and their content, hook calls, lock content during and "
-      "after the run, report and captured mail are checked against the property.",
+      "after the run, report and captured mail are checked against the property; the refused invocation (fresh, resumed, resumed with a name that is a prefix of "
+      "the running one's) is also compared with Lock.invoke.",
       "Partial: completion timings are sampled on the implementation (as C04). Trusted: Lean kernel; bash and shims; kqueue shim; sendmail capture; harness.",
       "DESIGN.md#c11")
 
